@@ -53,8 +53,23 @@ def r17_1_2(ctx, fx):
     fn = ctx.fn(fx, MS + "put", "R17.1")
     if fn is None:
         return
+    class _Site:      # a store site that is not a call: `*records.get_mut(k)? = record`
+        def __init__(self, node):
+            self.node = node
     vac = [c for c in fn.calls(r"VacantEntry::insert$|VacantEntry<.*>::insert$") if from_field(fn, c.args[0], "records")]
     occ = [c for c in fn.calls(r"OccupiedEntry::insert$|OccupiedEntry<.*>::insert$") if from_field(fn, c.args[0], "records")]
+    plain = []
+    if not vac:
+        # the same written with get_mut / insert: a `records.insert(k, v)` on the edge where the key is known to be absent grows the map,
+        # an assignment through the `get_mut` reference replaces the stored record
+        from common import map_presence_edges
+        present, absent = map_presence_edges(fn, "records")
+        plain = [c for c in fn.calls(r"HashMap::insert$") if ".records" in fn.recv(c)]
+        vac = [c for c in plain if absent and c.node not in fn.reach([fn.entry], cut=absent)]
+        gm = [c for c in fn.calls(r"HashMap::get_mut$") if ".records" in fn.recv(c)]
+        for n_, st in fn.assigns():
+            if len(st["lhs"]) == 2 and st["lhs"][1] == "*" and any(("call", g.name) in fn.roots({"c": [st["lhs"][0]]}) for g in gm) and "Record" in fn.locals[st["lhs"][0]]:
+                occ.append(_Site(n_))
     ctx.anchor("R17.1", "put: VacantEntry::insert on records", len(vac), 1, cfg=fx.cfg)
     ctx.anchor("R17.2", "put: OccupiedEntry::insert on records", len(occ), 1, cfg=fx.cfg)
     for c in vac:
@@ -62,7 +77,7 @@ def r17_1_2(ctx, fx):
     # the len used in the comparison is taken before the entry() call and nothing grows the map in between
     lens = [c for c in fn.calls(r"HashMap::len$") if ".records" in fn.recv(c)]
     for c in vac:
-        muts = [m.node for m in fn.calls(r"HashMap::(insert|extend)$") if ".records" in fn.recv(m)]
+        muts = [m.node for m in fn.calls(r"HashMap::(insert|extend)$") if ".records" in fn.recv(m) and m.node not in {v.node for v in vac}]
         ctx.ob("R17.1", "put/no-other-growth-of-records", not muts, site=fn.site(c.node), cfg=fx.cfg, detail="other growth calls: %d" % len(muts))
     for c in vac + occ:
         is_q = q_len_of("value", r"Vec::len$")
@@ -70,14 +85,17 @@ def r17_1_2(ctx, fx):
         ctx.ob("R17.2", "put/%s-behind-value.len<max_record_size_bytes" % ("vacant-insert" if c in vac else "occupied-insert"), ok,
                site=fn.site(c.node), cfg=fx.cfg, detail=why)
     # R17.5 (replacement freshness)
+    STORED_RX = r"OccupiedEntry(<.*>)?::get$|HashMap(<.*>)?::get(_mut)?$"
+
     def is_stored(f, o):
-        return any(r[0] == "call" and re.search(r"OccupiedEntry(<.*>)?::get$", r[1]) for r in f.roots(o)) and not any(
-            r[0] == "param" and r[1] == 2 and ".expires" in r[2] for r in f.roots(o))
+        # (the stored record is later overwritten with the new one through the same reference, so a flow-insensitive provenance of the
+        # stored side may also mention the new record; the new side never mentions the lookup)
+        return any(r[0] == "call" and re.search(STORED_RX, r[1]) for r in f.roots(o))
 
     def is_new(f, o):
         rs = f.roots(o)
         return any(r[0] == "param" and r[1] == 2 and ".expires" in r[2] for r in rs) and not any(
-            r[0] == "call" and re.search(r"OccupiedEntry(<.*>)?::get$", r[1]) for r in rs)
+            r[0] == "call" and re.search(STORED_RX, r[1]) for r in rs)
     facts = guards.edge_facts(fn, is_stored, is_new)
     ctx.anchor("R17.5", "put: comparison stored.expires vs new.expires", len({cn for _, _, _, cn in facts}), 1, cfg=fx.cfg)
     for c in occ:
@@ -175,12 +193,38 @@ def r17_3_4(ctx, fx):
 def r17_5(ctx, fx):
     # get
     fn = ctx.fn(fx, MS + "get", "R17.5")
-    cl = ctx.fn(fx, MS + "get::{closure#0}", "R17.5")
+    cl = ctx.fn(fx, MS + "get::{closure#0}", "R17.5", required=False)
+    if fn is not None and cl is None:
+        # the expiry test written in the function itself (`matches!(self.records.get(key), Some(r) if r.is_expired(now))`, `if let`)
+        ie = [c for c in fn.calls(r"Record::is_expired$")]
+        ctx.anchor("R17.5", "get: records.get(key).is_some_and(expired)", len(ie), 1, cfg=fx.cfg)
+        tests = [t for c in ie for t in fn.bool_tests(c.dest[0])]
+        # the constant-bool temporary of a `matches!` carries the same verdict
+        import guards as _g
+        fake = [(sw, t, "==", c.node) for c in ie for sw, t, f in fn.bool_tests(c.dest[0])]
+        tests += [(sw, lab, None) for sw, lab, rel, cn in _g.forward_through_bools(fn, fake)]
+        ctx.anchor("R17.5", "get: branch on is_expired", len(tests), 1, cfg=fx.cfg)
+        rem = [c for c in fn.calls(r"HashMap::remove$") if ".records" in fn.recv(c)]
+        retgets = [c for c in fn.calls(r"HashMap::get$") if c.dest == [0] or 0 in {l for l in _flows_to_ret(fn, c)}]
+        ctx.anchor("R17.5", "get: returned lookup", len(retgets), 1, cfg=fx.cfg)
+        texp = {(sw, t) for sw, t, f in tests}
+        for c in retgets:
+            ctx.ob("R17.5", "get/returns-record-only-if-not-expired", bool(texp) and not any(c.node in fn.reach([n for n, l in fn.succs(sw) if l == t]) for sw, t in texp), site=fn.site(c.node), cfg=fx.cfg,
+                   detail="the lookup whose result is returned must not be reachable from the expired edge")
+        for sw, t in sorted(texp)[:1]:
+            r = set()
+            for sw2, t2 in texp:
+                r |= fn.reach([n for n, l in fn.succs(sw2) if l == t2])
+            exits_some = [n for n, sh in fn.exits() if n in r and not all(s.startswith("None") for s in sh)]
+            ctx.ob("R17.5", "get/expired-edge-returns-None-and-removes", not exits_some and any(c.node in r for c in rem), site=fn.site(sw), cfg=fx.cfg,
+                   detail="exits on the expired edge that may return a record: %s" % [fn.site(n) for n in exits_some])
     if fn is not None and cl is not None:
         rets = closure_returns(cl)
         ok = bool(rets) and all(r is not None and r[0] == 1 and r[1].matches(r"Record::is_expired$") for r in rets)
         ctx.ob("R17.5", "get/expiry-closure-returns-is_expired", ok, site=cl.site(cl.entry), cfg=fx.cfg, detail=str(rets))
         isa = [c for c in fn.calls(r"Option::is_some_and$") if any(r[0] == "call" and r[1].endswith("HashMap::get") for r in fn.roots(c.args[0]))]
+        # `map_or(false, |r| r.is_expired(..))` is the same test
+        isa += [c for c in fn.calls(r"Option::map_or$") if len(c.args) == 3 and fn.const_value(c.args[1]) == 0 and any(r[0] == "call" and r[1].endswith("HashMap::get") for r in fn.roots(c.args[0]))]
         ctx.anchor("R17.5", "get: records.get(key).is_some_and(expired)", len(isa), 1, cfg=fx.cfg)
         if isa:
             tests = fn.bool_tests(isa[0].dest[0])
@@ -310,10 +354,27 @@ def r17_8(ctx, fx):
             sw = [sw for sw in fn.discr_switches() if bs and sw[1][0] in fn.copies_of(bs[0].dest[0])]
             ok = ok and bool(sw) and fn.only_via(c.node, sw[0][0], fn.variant_edges(sw[0], "Err"))
             ctx.ob("R17.8", "put_provider/insert-at-the-binary-search-position", ok, site=fn.site(c.node), cfg=fx.cfg, detail="index roots: %s" % sorted(rs))
-    for key in (MS + "put_provider::{closure#0}", MS + "remove_local_provider::{closure#0}"):
+    # the comparator closures, found by role (the closure handed to binary_search_by), not by their index in the function
+    cmp_keys = []
+    for fkey in (MS + "put_provider", MS + "remove_local_provider"):
+        f2 = fx.fn(fkey)
+        if f2 is None:
+            continue
+        for c in f2.calls(r"binary_search_by$"):
+            if len(c.args) < 2:
+                continue
+            q = c.args[1].get("m") or c.args[1].get("c")
+            d = f2.single_def(q[0]) if q and len(q) == 1 else None
+            if d is not None and d[1] == "assign" and d[2]["rv"]["r"] == "agg" and d[2]["rv"].get("closure"):
+                k = d[2]["rv"]["closure"]
+                k = fx._alias.get(k, k)
+                if fx.fn(k) is not None and k not in cmp_keys:
+                    cmp_keys.append((fkey, k))
+    for fkey, key in cmp_keys:
         cl = ctx.fn(fx, key, "R17.8", required=False)
         if cl is None:
             continue
+        key = fkey + "::{closure#0}"     # stable obligation name
         cmp_ = [c for c in cl.calls(r"cmp::Ord>?::cmp$|Ord(<.*>)?>?::cmp$") if c.dest == [0]]
         dist = cl.calls(r"ProviderRecord::distance$|Key(<.*>)?::distance$")
         ok = len(cmp_) == 1 and bool(dist) and any(("call", d.name) in cl.roots(cmp_[0].args[0]) for d in dist)
